@@ -254,6 +254,8 @@ theorem withHandle_ok (h : H) (cmd : Int) (size : Nat) (data : Option Mem) : (wi
     | (split_ifs <;> c17_leaf)
     | c17_leaf
     | skip
+  case k1040 =>
+    apply guardEq_ok; intro m hm hs2; unfold calcSignalMax; split_ifs <;> c17_leaf
   case k1080 =>
     split_ifs <;> first | c17_leaf | (cases data <;> c17_leaf)
   case k10F1 =>
@@ -311,5 +313,8 @@ theorem withHandle_pure (h : H) (cmd : Int) (size : Nat) (data : Option Mem)
     | (apply containerCommand_pure <;> (intro hc; subst hc; revert hq; decide))
     | c17_pure
     | skip
+  case k1040 =>
+    simp only [guardEq, calcSignalMax]
+    (repeat' split) <;> simp [sameState]
 
 end Sf.Command
